@@ -575,6 +575,45 @@ impl Monitor for C18 {
                     if !ok && empty && code == Some(6046) {
                         out.push(viol("empty_bundle_not_deletable", ev.idx, "an empty bundle was refused as not deletable".into()));
                     }
+                    // "the bundle can be deleted only when none is open" - for every way of being non-empty: on copies whose
+                    // bitmap marks one position (first, last, somewhere), 255 of them, or all 256, the deletion must be refused
+                    if ev.tx.ixs.len() == 1 && (ev.salt % 2 == 0) {
+                        let bk = c.a("position_bundle");
+                        if let Some(acc) = pre.get(&bk).cloned() {
+                            let off = acc.data.len().saturating_sub(32 + 64).max(40);
+                            // the bitmap follows the discriminator and the bundle mint
+                            let off = if acc.data.len() >= 72 { 40 } else { off };
+                            let mut patterns: Vec<(&str, [u8; 32])> = Vec::new();
+                            let mut one = [0u8; 32];
+                            one[0] = 1;
+                            patterns.push(("only the first index", one));
+                            let mut last = [0u8; 32];
+                            last[31] = 0x80;
+                            patterns.push(("only the last index", last));
+                            let mut some = [0u8; 32];
+                            some[(ev.salt % 32) as usize] = 1 << (ev.salt % 8);
+                            patterns.push(("one index somewhere", some));
+                            let mut all_but_one = [0xffu8; 32];
+                            all_but_one[(ev.salt % 32) as usize] ^= 1 << (ev.salt % 8);
+                            patterns.push(("255 of the 256 indexes", all_but_one));
+                            patterns.push(("all 256 indexes", [0xffu8; 32]));
+                            for (label, bm) in patterns {
+                                let mut f = pre.clone();
+                                let mut d = (*acc.data).clone();
+                                if d.len() < off + 32 {
+                                    break;
+                                }
+                                d[off..off + 32].copy_from_slice(&bm);
+                                f.put(bk, crate::rt::Account::new(acc.lamports, d, acc.owner));
+                                let r = crate::rt::exec_tx_simple(&mut f, ev.tx);
+                                cov.probe("bundle_deletion_on_copies_with_open_positions");
+                                if r.ok {
+                                    out.push(viol("non_empty_bundle_deleted", ev.idx, format!("delete_position_bundle goes through on a copy of the bundle whose bitmap marks {} as open", label)));
+                                    break;
+                                }
+                            }
+                        }
+                    }
                 }
                 _ => {}
             }
